@@ -416,6 +416,15 @@ pub fn recover_replay(a: &Args) -> Report {
     if prop == "C16" {
       c16_determinism(&cfg, &clients, &oprf, val, &mut rep);
     }
+    if prop == "C17" && vi == 0 {
+      // thresholds at integer-width boundaries: the WASM call agrees with the core library
+      for t in [0u32, 1, 2, 255, 256, 257, 65535, 65536, 65537] {
+        for (m, e) in [(b"wasm threshold sweep".to_vec(), b"e".to_vec()), (vec![], vec![]), (vec![0u8, 0xff, 0x80, 0x00], "épöque".as_bytes().to_vec())] {
+          let _ = make_client_wasm(ClientCfg { m, e, t, aux: None, src: "local".into() }, &mut rep);
+          rep.nontrivial(format!("wasm-threshold:{t}"));
+        }
+      }
+    }
     for (li, line) in lines.iter().enumerate() {
       if li % stride != (vi % stride) || rep.too_many() {
         continue;
